@@ -14,7 +14,7 @@ ASSUMPTIONS = [
 
 def gen_scenario(seed, i, store):
     rng = Rng(seed * 32452843 + i)
-    kind = rng.below(3)
+    kind = rng.below(2)
     if kind == 0:
         g = c07.DataGen(rng.fork("wf"))
         w = g.workflow("m1")
@@ -30,7 +30,8 @@ def gen_scenario(seed, i, store):
     ops += gen.random_history(rng.fork("h"), n=rng.range(6, 14), stepped_p=20,
                               actions=["next", "next", "submit", "skip", "abort", "error", "set_process_vars", "next"],
                               opts_fn=lambda r, ev: ({"ecode": r.pick(["e1", "e2"]), "message": "boom"} if ev == "error" else
-                                                     ({"pv": r.below(9)} if ev == "set_process_vars" else {"n1": r.below(50), "n2": r.below(50)})))
+                                                     ({"pv": r.below(9)} if ev == "set_process_vars" else
+                                                      {nm: r.below(50) for nm in ("n1", "n2", "n3", "n4") if r.chance(3, 4)})))
     ops.append(["runall"])
     return {"id": f"c11-{seed}-{i}-{store}", "config": {"keep": True, "dump_each": True, "store": store, "rows_each": ["procs", "tasks"]}, "models": [w], "ops": ops, "exprs": exprs}
 
